@@ -1608,12 +1608,17 @@ class _GroupElem(ABC):
 
         return self.__nodes[idx].copy()
 
+    def __Get_Nodes_tol(self) -> float:
+        """Returns the tolerance used to select nodes on a geometric object.\n
+        The round-off of a node lying on the object grows with the coordinates."""
+        return 1e-12 * max(1.0, np.abs(self.__coord).max())
+
     def Get_Nodes_Line(self, line: "Line") -> _types.IntArray:
         """Returns nodes on the line."""
 
         assert isinstance(line, Line)
 
-        idx = np.where(line.Contains(self.coord, 1e-12))[0]
+        idx = np.where(line.Contains(self.coord, self.__Get_Nodes_tol()))[0]
         return self.__nodes[idx].copy()
 
     def Get_Nodes_Domain(self, domain: "Domain") -> _types.IntArray:
@@ -1621,7 +1626,7 @@ class _GroupElem(ABC):
 
         assert isinstance(domain, Domain)
 
-        idx = np.where(domain.Encloses(self.coord, 1e-12))[0]
+        idx = np.where(domain.Encloses(self.coord, self.__Get_Nodes_tol()))[0]
         return self.__nodes[idx].copy()
 
     def Get_Nodes_Circle(self, circle: "Circle", onlyOnEdge=False) -> _types.IntArray:
@@ -1634,7 +1639,7 @@ class _GroupElem(ABC):
 
         test = circle.Contains if onlyOnEdge else circle.Encloses
 
-        idx = np.where(test(self.coord, 1e-12))[0]
+        idx = np.where(test(self.coord, self.__Get_Nodes_tol()))[0]
         return self.__nodes[idx].copy()
 
     def Get_Nodes_Cylinder(
@@ -1661,7 +1666,7 @@ class _GroupElem(ABC):
             cj = (R - coordN[:, 1].max()) / R
             J[:, 1] *= cj
 
-        eps = 1e-12
+        eps = self.__Get_Nodes_tol()
         coord = np.einsum(
             "ij,nj->ni", np.linalg.inv(J), self.coord - circle.center.coord
         )
